@@ -752,9 +752,12 @@ def d8(ctx, prog):
     cases.append(('_CombinationOfTwoFrames', 'frame_1 x frame_2', {'self.frame_1': f1, 'self.frame_2': f2, 'self._frame_2_was_none': False},
                   [(a, b) for a in f1 for b in f2]))
     fr = [0, 1, 2, 3, 4]
-    for d in (1, 2):
+    for d in (1, 2, 4, 5, 6, 7):
         cases.append(('_CombinationFrameOnDistance', f'distance {d}', {'self.frame_1': fr, 'self.frame_2': None, 'self.distance': d},
                       [(a, fr[j]) for i, a in enumerate(fr) for j in range(i, min(i + d + 1, len(fr)))]))
+    for fr_, d in (([3], 1), ([3], 2), ([1, 4], 3), ([1, 4], 4)):        # a distance larger than the frame: every pair i <= j, nothing more
+        cases.append(('_CombinationFrameOnDistance', f'frame {fr_}, distance {d}', {'self.frame_1': fr_, 'self.frame_2': None, 'self.distance': d},
+                      [(a, fr_[j]) for i, a in enumerate(fr_) for j in range(i, min(i + d + 1, len(fr_)))]))
     cases.append(('_CombinationPointToPoint', 'point to point', {'self.frame_1': f1, 'self.frame_2': [4, 1, 0]}, list(zip(f1, [4, 1, 0]))))
     n = 0
     for cname, what, seeds, pairs in cases:
